@@ -31,8 +31,8 @@ theorem absorb128_eq : f_tinyjambu_absorb_128.body = absorbBody 42 := rfl
 theorem absorb192_eq : f_tinyjambu_absorb_192.body = absorbBody 43 := rfl
 theorem absorb256_eq : f_tinyjambu_absorb_256.body = absorbBody 44 := rfl
 
-structure ABI (g : AGeo) (dg : DGeo g) (env : Env) (st : St) (s : W4) (kws : List UInt32) (off : Nat) (rest : Bytes) (d8 : UInt8) (rounds : Nat) : Prop where
-  ai : AI g 37 env st s kws
+structure ABI (g : AGeo) (M : Array Block) (dg : DGeo g M) (env : Env) (st : St) (s : W4) (kws : List UInt32) (off : Nat) (rest : Bytes) (d8 : UInt8) (rounds : Nat) : Prop where
+  ai : AI g M 37 env st s kws
   e1 : env[1]? = some (mkPtr dg.bd (dg.based + off), .pub)
   e2 : env[2]? = some (rest.length, .pub)
   e3 : env[3]? = some (d8.toNat, .pub)
@@ -58,12 +58,12 @@ theorem castVal_u64_i32_lit (c : Nat) (hc : c < 256) : castVal .u64 .i32 c = c :
   omega
 
 /-- the first two steps every absorb step starts with: `s[1] ^= domain; P(rounds)` -/
-theorem absorb_head {g : AGeo} {dg : DGeo g} {env : Env} {st : St} {s : W4} {kws : List UInt32} {off : Nat} {rest : Bytes} {d8 : UInt8} {rounds : Nat}
-    (ab : ABI g dg env st s kws off rest d8 rounds) (t x : Nat) (ht : 5 ≤ t ∧ t < 37) (hx : 5 ≤ x ∧ x < 37) (htx : t ≠ x) (more : Stmt)
+theorem absorb_head {g : AGeo} {M : Array Block} {dg : DGeo g M} {env : Env} {st : St} {s : W4} {kws : List UInt32} {off : Nat} {rest : Bytes} {d8 : UInt8} {rounds : Nat}
+    (ab : ABI g M dg env st s kws off rest d8 rounds) (t x : Nat) (ht : 5 ≤ t ∧ t < 37) (hx : 5 ≤ x ∧ x < 37) (htx : t ≠ x) (more : Stmt)
     {Q : Sig → Env → St → Prop}
-    (hQ : ∀ e' s', ABI g dg e' s' (g.P kws rounds (addDomain s d8.toUInt32)) kws off rest d8 rounds → RunsTo g.prog more e' s' Q) :
+    (hQ : ∀ e' s', ABI g M dg e' s' (g.P kws rounds (addDomain s d8.toUInt32)) kws off rest d8 rounds → RunsTo g.prog more e' s' Q) :
     RunsTo g.prog (.seq (xorPub 1 t x (.cast .u32 .u8 (.var 3))) (.seq (.call none g.pidx [.var 0, .var 4]) more)) env st Q := by
-  refine runs_seq (Q := fun e' s' => ABI g dg e' s' (addDomain s d8.toUInt32) kws off rest d8 rounds) ?_ ?_
+  refine runs_seq (Q := fun e' s' => ABI g M dg e' s' (addDomain s d8.toUInt32) kws off rest d8 rounds) ?_ ?_
   · refine ai_xor ab.ai 1 t x _ d8.toUInt32 (by decide) (by omega) (by omega) htx ?_ ?_
     · intro e' hfr
       exact evalD_dom (by rw [hfr 3 (by omega) (by omega)]; exact ab.e3)
@@ -71,7 +71,7 @@ theorem absorb_head {g : AGeo} {dg : DGeo g} {env : Env} {st : St} {s : W4} {kws
       exact ⟨rfl, ai', by rw [hfr 1 (by omega) (by omega)]; exact ab.e1, by rw [hfr 2 (by omega) (by omega)]; exact ab.e2,
         by rw [hfr 3 (by omega) (by omega)]; exact ab.e3, by rw [hfr 4 (by omega) (by omega)]; exact ab.e4, ab.hd, ab.hr⟩
   · intro e1 s1 ab1
-    refine runs_seq (Q := fun e' s' => ABI g dg e' s' (g.P kws rounds (addDomain s d8.toUInt32)) kws off rest d8 rounds) ?_ hQ
+    refine runs_seq (Q := fun e' s' => ABI g M dg e' s' (g.P kws rounds (addDomain s d8.toUInt32)) kws off rest d8 rounds) ?_ hQ
     refine ai_perm ab1.ai (.var 4) rounds ab.hr (by simp only [evalE, ab1.e4, reduceCtorEq, if_false]) ?_
     intro e' s' hle ai'
     exact ⟨rfl, ai', envLe_pub hle 1 _ ab1.e1, envLe_pub hle 2 _ ab1.e2, envLe_pub hle 3 _ ab1.e3, envLe_pub hle 4 _ ab1.e4, ab.hd, ab.hr⟩
@@ -83,10 +83,10 @@ theorem bytesV_drop {X : Array LByte} {off : Nat} {bs : Bytes} (h : BytesV X off
   rw [show off + n + k = off + (n + k) from by omega]; exact this
 
 /-- one iteration of the word loop of `tinyjambu_absorb_*` -/
-theorem absorb_iter {g : AGeo} {dg : DGeo g} {env : Env} {st : St} {s : W4} {kws : List UInt32} {off : Nat} {d8 : UInt8} {rounds : Nat}
-    (b0 b1 b2 b3 : UInt8) (rest : Bytes) (ab : ABI g dg env st s kws off (b0 :: b1 :: b2 :: b3 :: rest) d8 rounds) :
+theorem absorb_iter {g : AGeo} {M : Array Block} {dg : DGeo g M} {env : Env} {st : St} {s : W4} {kws : List UInt32} {off : Nat} {d8 : UInt8} {rounds : Nat}
+    (b0 b1 b2 b3 : UInt8) (rest : Bytes) (ab : ABI g M dg env st s kws off (b0 :: b1 :: b2 :: b3 :: rest) d8 rounds) :
     RunsTo g.prog (absorbLoopBody g.pidx) env st (fun sig e' s' => sig = .normal ∧
-      ABI g dg e' s' (absorbW (g.P kws rounds (addDomain s d8.toUInt32)) (load32 b0 b1 b2 b3)) kws (off + 4) rest d8 rounds) := by
+      ABI g M dg e' s' (absorbW (g.P kws rounds (addDomain s d8.toUInt32)) (load32 b0 b1 b2 b3)) kws (off + 4) rest d8 rounds) := by
   have hlen : (b0 :: b1 :: b2 :: b3 :: rest).length < 18446744073709551616 := by
     have := ab.hd.1; have := dg.hlt; simp only [ptrBase] at *; omega
   unfold absorbLoopBody
@@ -94,12 +94,12 @@ theorem absorb_iter {g : AGeo} {dg : DGeo g} {env : Env} {st : St} {s : W4} {kws
   · simp only [evalE, ab.e2, reduceCtorEq, if_false, castVal_u64_i32_lit 4 (by decide), BinOp.needsPub2, BinOp.needsPub1, Bool.false_and, Bool.or_self,
       Bool.false_eq_true, binVal, Ty.signed, ge_iff_le, List.length_cons, show 4 ≤ rest.length + 1 + 1 + 1 + 1 from by omega, decide_true, b2n, if_true, Lab.join_pub_pub]
   simp only [seqs]
-  have ab' : ABI g dg env { st with leak := Ev.br true :: st.leak } s kws off (b0 :: b1 :: b2 :: b3 :: rest) d8 rounds :=
+  have ab' : ABI g M dg env { st with leak := Ev.br true :: st.leak } s kws off (b0 :: b1 :: b2 :: b3 :: rest) d8 rounds :=
     ⟨⟨ab.ai.esz, ab.ai.e0, ab.ai.klen, ab.ai.obj, ab.ai.oth, ab.ai.msz, ab.ai.ent⟩, ab.e1, ab.e2, ab.e3, ab.e4, ab.hd, ab.hr⟩
   refine absorb_head ab' 5 6 (by decide) (by decide) (by decide) _ ?_
   intro e1 s1 ab1
   -- s[3] ^= le_load_word32(data)
-  refine runs_seq (Q := fun e' s' => ABI g dg e' s' (absorbW (g.P kws rounds (addDomain s d8.toUInt32)) (load32 b0 b1 b2 b3)) kws off (b0 :: b1 :: b2 :: b3 :: rest) d8 rounds) ?_ ?_
+  refine runs_seq (Q := fun e' s' => ABI g M dg e' s' (absorbW (g.P kws rounds (addDomain s d8.toUInt32)) (load32 b0 b1 b2 b3)) kws off (b0 :: b1 :: b2 :: b3 :: rest) d8 rounds) ?_ ?_
   · refine ai_xor_data dg ab1.ai off _ ab1.hd ab1.e1 3 7 12 [(8, 3), (9, 2), (10, 1), (11, 0)] (e32 8 9 10 11) (load32 b0 b1 b2 b3) (by decide) (by decide) (by decide)
       (by decide) (by simp) ?_ (by decide) ?_ ?_
     · intro yo hyo
@@ -160,9 +160,9 @@ theorem absorbData_split (P : Perm) (d : UInt32) (r : Nat) : ∀ (s : W4) (l : B
     rw [absorbData, absWords, absRest]
     exact absorbData_split P d r _ rest
 
-theorem absorb_exit {g : AGeo} {dg : DGeo g} {env : Env} {st : St} {s : W4} {kws : List UInt32} {off : Nat} {rest : Bytes} {d8 : UInt8} {rounds : Nat}
-    (ab : ABI g dg env st s kws off rest d8 rounds) (hl : rest.length < 4) :
-    RunsTo g.prog (absorbLoopBody g.pidx) env st (fun sig e' s' => sig = .brk ∧ ABI g dg e' s' s kws off rest d8 rounds) := by
+theorem absorb_exit {g : AGeo} {M : Array Block} {dg : DGeo g M} {env : Env} {st : St} {s : W4} {kws : List UInt32} {off : Nat} {rest : Bytes} {d8 : UInt8} {rounds : Nat}
+    (ab : ABI g M dg env st s kws off rest d8 rounds) (hl : rest.length < 4) :
+    RunsTo g.prog (absorbLoopBody g.pidx) env st (fun sig e' s' => sig = .brk ∧ ABI g M dg e' s' s kws off rest d8 rounds) := by
   unfold absorbLoopBody
   refine runs_ite_false ?_ (runs_brk ⟨rfl, ⟨ab.ai.esz, ab.ai.e0, ab.ai.klen, ab.ai.obj, ab.ai.oth, ab.ai.msz, ab.ai.ent⟩, ab.e1, ab.e2, ab.e3, ab.e4, ab.hd, ab.hr⟩)
   have : ¬ 4 ≤ rest.length := by omega
@@ -170,10 +170,10 @@ theorem absorb_exit {g : AGeo} {dg : DGeo g} {env : Env} {st : St} {s : W4} {kws
     Bool.false_eq_true, binVal, Ty.signed, ge_iff_le, this, decide_false, b2n, Lab.join_pub_pub]
 
 /-- **the word loop of `tinyjambu_absorb_*`** -/
-theorem absorb_loop {g : AGeo} {dg : DGeo g} {d8 : UInt8} {rounds : Nat} {kws : List UInt32} : ∀ (l : Bytes) (env : Env) (st : St) (s : W4) (off : Nat),
-    ABI g dg env st s kws off l d8 rounds →
+theorem absorb_loop {g : AGeo} {M : Array Block} {dg : DGeo g M} {d8 : UInt8} {rounds : Nat} {kws : List UInt32} : ∀ (l : Bytes) (env : Env) (st : St) (s : W4) (off : Nat),
+    ABI g M dg env st s kws off l d8 rounds →
     RunsTo g.prog (.loop (absorbLoopBody g.pidx)) env st (fun sig e' s' => sig = .normal ∧
-      ∃ off', ABI g dg e' s' (absWords (g.P kws) d8.toUInt32 rounds s l) kws off' (absRest l) d8 rounds)
+      ∃ off', ABI g M dg e' s' (absWords (g.P kws) d8.toUInt32 rounds s l) kws off' (absRest l) d8 rounds)
   | b0 :: b1 :: b2 :: b3 :: rest, env, st, s, off, ab => by
     refine runs_loop_continue (absorb_iter b0 b1 b2 b3 rest ab) ?_
     intro e s' ab'
@@ -185,18 +185,18 @@ theorem absorb_loop {g : AGeo} {dg : DGeo g} {d8 : UInt8} {rounds : Nat} {kws : 
   | [_, _, _], env, st, s, off, ab => runs_loop_break ((absorb_exit ab (by simp)).weaken fun _ _ _ ⟨h, a⟩ => ⟨h, rfl, off, a⟩)
 
 /-- one tail branch: `s[1] ^= domain; P; s[3] ^= word(data); s[1] ^= k` -/
-theorem absorb_tail_branch {g : AGeo} {dg : DGeo g} {env : Env} {st : St} {s : W4} {kws : List UInt32} {off : Nat} {rest : Bytes} {d8 : UInt8} {rounds : Nat}
-    (ab : ABI g dg env st s kws off rest d8 rounds) (t1 x1 t2 x2 t3 x3 : Nat) (loads : List (Nat × Nat)) (E : Expr) (c : UInt32) (k : Nat) (hk : k < 256)
+theorem absorb_tail_branch {g : AGeo} {M : Array Block} {dg : DGeo g M} {env : Env} {st : St} {s : W4} {kws : List UInt32} {off : Nat} {rest : Bytes} {d8 : UInt8} {rounds : Nat}
+    (ab : ABI g M dg env st s kws off rest d8 rounds) (t1 x1 t2 x2 t3 x3 : Nat) (loads : List (Nat × Nat)) (E : Expr) (c : UInt32) (k : Nat) (hk : k < 256)
     (h1 : 5 ≤ t1 ∧ t1 < 37 ∧ 5 ≤ x1 ∧ x1 < 37 ∧ t1 ≠ x1) (h2 : 5 ≤ t2 ∧ t2 < 37 ∧ 5 ≤ x2 ∧ x2 < 37 ∧ t2 ≠ x2) (h3 : 5 ≤ t3 ∧ t3 < 37 ∧ 5 ≤ x3 ∧ x3 < 37 ∧ t3 ≠ x3)
     (hl0 : loads ≠ []) (hall : ∀ yo ∈ loads, 5 ≤ yo.1 ∧ yo.1 < 37 ∧ yo.1 ≠ t2 ∧ yo.1 ≠ x2 ∧ yo.2 < rest.length) (hnd : (loads.map Prod.fst).Nodup)
     (hE : ∀ e' : Env, (∀ yo ∈ loads, EnvHas e' yo.1 (rest.getD yo.2 0).toNat) → EvalD e' E c.toNat) :
     RunsTo g.prog (seqs [xorPub 1 t1 x1 (.cast .u32 .u8 (.var 3)), .call none g.pidx [.var 0, .var 4], xorData 3 t2 x2 loads E,
         xorPub 1 t3 x3 (.cast .u32 .i32 (.lit k))]) env st
-      (fun sig e' s' => sig = .normal ∧ AI g 37 e' s' (addDomain (absorbW (g.P kws rounds (addDomain s d8.toUInt32)) c) (UInt32.ofNat k)) kws) := by
+      (fun sig e' s' => sig = .normal ∧ AI g M 37 e' s' (addDomain (absorbW (g.P kws rounds (addDomain s d8.toUInt32)) c) (UInt32.ofNat k)) kws) := by
   simp only [seqs]
   refine absorb_head ab t1 x1 ⟨h1.1, h1.2.1⟩ ⟨h1.2.2.1, h1.2.2.2.1⟩ h1.2.2.2.2 _ ?_
   intro e1 s1 ab1
-  refine runs_seq (Q := fun e' s' => AI g 37 e' s' (absorbW (g.P kws rounds (addDomain s d8.toUInt32)) c) kws) ?_ ?_
+  refine runs_seq (Q := fun e' s' => AI g M 37 e' s' (absorbW (g.P kws rounds (addDomain s d8.toUInt32)) c) kws) ?_ ?_
   · refine ai_xor_data dg ab1.ai off _ ab1.hd ab1.e1 3 t2 x2 loads E c (by decide) (by omega) (by omega) h2.2.2.2.2 hl0
       (fun yo hyo => by have := hall yo hyo; omega) hnd hE ?_
     intro e' s' _ _ ai'
@@ -207,14 +207,14 @@ theorem absorb_tail_branch {g : AGeo} {dg : DGeo g} {env : Env} {st : St} {s : W
     exact ⟨rfl, ai'⟩
 
 /-- the 1/2/3-byte tails -/
-theorem absorb_tail {g : AGeo} {dg : DGeo g} {env : Env} {st : St} {s : W4} {kws : List UInt32} {off : Nat} {rest : Bytes} {d8 : UInt8} {rounds : Nat}
-    (ab : ABI g dg env st s kws off rest d8 rounds) (hl : rest.length < 4) :
-    RunsTo g.prog (absorbTail g.pidx) env st (fun sig e' s' => sig = .normal ∧ AI g 37 e' s' (absorbData (g.P kws) d8.toUInt32 rounds s rest) kws) := by
+theorem absorb_tail {g : AGeo} {M : Array Block} {dg : DGeo g M} {env : Env} {st : St} {s : W4} {kws : List UInt32} {off : Nat} {rest : Bytes} {d8 : UInt8} {rounds : Nat}
+    (ab : ABI g M dg env st s kws off rest d8 rounds) (hl : rest.length < 4) :
+    RunsTo g.prog (absorbTail g.pidx) env st (fun sig e' s' => sig = .normal ∧ AI g M 37 e' s' (absorbData (g.P kws) d8.toUInt32 rounds s rest) kws) := by
   have cond : ∀ c, c < 256 → evalE env (.bin .eq .u64 (.var 2) (.cast .u64 .i32 (.lit c))) = .ok (b2n (rest.length = c), .pub) := by
     intro c hc
     simp only [evalE, ab.e2, reduceCtorEq, if_false, castVal_u64_i32_lit c hc, BinOp.needsPub2, BinOp.needsPub1, Bool.false_and, Bool.or_self,
       Bool.false_eq_true, binVal, Lab.join_pub_pub]
-  have abl : ∀ l, ABI g dg env { st with leak := l } s kws off rest d8 rounds := fun l =>
+  have abl : ∀ l, ABI g M dg env { st with leak := l } s kws off rest d8 rounds := fun l =>
     ⟨⟨ab.ai.esz, ab.ai.e0, ab.ai.klen, ab.ai.obj, ab.ai.oth, ab.ai.msz, ab.ai.ent⟩, ab.e1, ab.e2, ab.e3, ab.e4, ab.hd, ab.hr⟩
   unfold absorbTail
   match rest, hl, ab, cond, abl with
@@ -241,43 +241,43 @@ theorem absorb_tail {g : AGeo} {dg : DGeo g} {env : Env} {st : St} {s : W4} {kws
     intro sig e' s' h; exact h
 
 /-- the memory part of the invariant (what a caller sees) -/
-structure MI (g : AGeo) (st : St) (s : W4) (kws : List UInt32) : Prop where
+structure MI (g : AGeo) (M : Array Block) (st : St) (s : W4) (kws : List UInt32) : Prop where
   klen : kws.length = g.nk
   obj : ∃ X, st.mem[g.bs]? = some ⟨X, g.baseS⟩ ∧ X.size = 16 + 4 * g.nk ∧ WordsV X (sw s ++ kws)
-  oth : OthLe g.bs st.mem g.mem0
-  msz : st.mem.size = g.mem0.size
+  oth : OthLe g.bs st.mem M
+  msz : st.mem.size = M.size
   ent : st.ent = g.ent0
 
-theorem AI.toMI {g : AGeo} {nv : Nat} {env : Env} {st : St} {s : W4} {kws : List UInt32} (a : AI g nv env st s kws) : MI g st s kws :=
+theorem AI.toMI {g : AGeo} {M : Array Block} {nv : Nat} {env : Env} {st : St} {s : W4} {kws : List UInt32} (a : AI g M nv env st s kws) : MI g M st s kws :=
   ⟨a.klen, a.obj, a.oth, a.msz, a.ent⟩
-theorem MI.toAI {g : AGeo} {st : St} {s : W4} {kws : List UInt32} (m : MI g st s kws) {nv : Nat} {env : Env} (hs : env.size = nv)
-    (h0 : env[0]? = some (mkPtr g.bs g.baseS, .pub)) : AI g nv env st s kws := ⟨hs, h0, m.klen, m.obj, m.oth, m.msz, m.ent⟩
+theorem MI.toAI {g : AGeo} {M : Array Block} {st : St} {s : W4} {kws : List UInt32} (m : MI g M st s kws) {nv : Nat} {env : Env} (hs : env.size = nv)
+    (h0 : env[0]? = some (mkPtr g.bs g.baseS, .pub)) : AI g M nv env st s kws := ⟨hs, h0, m.klen, m.obj, m.oth, m.msz, m.ent⟩
 
-theorem MI.extract {g : AGeo} {st : St} {s : W4} {kws : List UInt32} (m : MI g st s kws) (n : Nat) (hn : n = st.mem.size) :
-    MI g { st with mem := st.mem.extract 0 n } s kws := by
+theorem MI.extract {g : AGeo} {M : Array Block} {st : St} {s : W4} {kws : List UInt32} (m : MI g M st s kws) (n : Nat) (hn : n = st.mem.size) :
+    MI g M { st with mem := st.mem.extract 0 n } s kws := by
   have : st.mem.extract 0 n = st.mem := by rw [hn]; exact extract_self _
   exact ⟨m.klen, by show ∃ X, (st.mem.extract 0 n)[g.bs]? = _ ∧ _; rw [this]; exact m.obj, by show OthLe g.bs (st.mem.extract 0 n) _; rw [this]; exact m.oth,
     by show (st.mem.extract 0 n).size = _; rw [this]; exact m.msz, m.ent⟩
 
 /-- **`tinyjambu_absorb_*(state, data, size, domain, rounds)` as a call** -/
-theorem absorb_call (g : AGeo) (dg : DGeo g) (fn : Nat) (fd : FunDecl) (hprog : g.prog[fn]? = some fd) (hbody : fd.body = absorbBody g.pidx)
+theorem absorb_call (g : AGeo) {M : Array Block} (dg : DGeo g M) (fn : Nat) (fd : FunDecl) (hprog : g.prog[fn]? = some fd) (hbody : fd.body = absorbBody g.pidx)
     (hp : fd.nparams = 5) (hv : fd.nvars = 37) (ha : fd.allocs = [])
     (env : Env) (st : St) (es ed el edom er : Expr) (s : W4) (kws : List UInt32) (off : Nat) (dat : Bytes) (d8 : UInt8) (rounds : Nat)
-    (mi : MI g st s kws) (hes : evalE env es = .ok (mkPtr g.bs g.baseS, .pub)) (hed : evalE env ed = .ok (mkPtr dg.bd (dg.based + off), .pub))
+    (mi : MI g M st s kws) (hes : evalE env es = .ok (mkPtr g.bs g.baseS, .pub)) (hed : evalE env ed = .ok (mkPtr dg.bd (dg.based + off), .pub))
     (hel : evalE env el = .ok (dat.length, .pub)) (hedom : evalE env edom = .ok (d8.toNat, .pub)) (her : evalE env er = .ok (rounds, .pub))
     (hd : BytesV dg.XD off dat) (hr : rounds < 4294967296) :
     RunsTo g.prog (.call none fn [es, ed, el, edom, er]) env st (fun sig e s' => sig = .normal ∧ e = env ∧
-      MI g s' (absorbData (g.P kws) d8.toUInt32 rounds s dat) kws) := by
+      MI g M s' (absorbData (g.P kws) d8.toUInt32 rounds s dat) kws) := by
   let vs : List LVal := [(mkPtr g.bs g.baseS, .pub), (mkPtr dg.bd (dg.based + off), .pub), (dat.length, .pub), (d8.toNat, .pub), (rounds, .pub)]
   have hent : (enterFun fd vs st.mem).2 = st.mem := by simp only [enterFun, ha, allocLocals]
   have henv : (enterFun fd vs st.mem).1 = (vs ++ List.replicate 32 (0, Lab.undef)).toArray := by simp only [enterFun, ha, allocLocals, hp, hv]
   refine runs_call_none fd vs hprog (by simp only [evalArgs, hes, hed, hel, hedom, her]; rfl) (by rw [hp]; rfl) ?_
   rw [hbody, hent, henv]
-  have ab : ABI g dg (vs ++ List.replicate 32 (0, Lab.undef)).toArray { st with mem := st.mem } s kws off dat d8 rounds :=
+  have ab : ABI g M dg (vs ++ List.replicate 32 (0, Lab.undef)).toArray { st with mem := st.mem } s kws off dat d8 rounds :=
     ⟨mi.toAI rfl rfl, rfl, rfl, rfl, rfl, hd, hr⟩
   unfold absorbBody
   simp only [seqs]
-  refine runs_seq (Q := fun e' s' => ∃ off', ABI g dg e' s' (absWords (g.P kws) d8.toUInt32 rounds s dat) kws off' (absRest dat) d8 rounds)
+  refine runs_seq (Q := fun e' s' => ∃ off', ABI g M dg e' s' (absWords (g.P kws) d8.toUInt32 rounds s dat) kws off' (absRest dat) d8 rounds)
     (absorb_loop dat _ _ s off ab) ?_
   intro e1 s1 ⟨off', ab1⟩
   refine (absorb_tail ab1 (absRest_lt dat)).weaken ?_
